@@ -309,12 +309,20 @@ class Gen:
     def count(self, k):
         self.hist[k] = self.hist.get(k, 0) + 1
 
+    wide_p = 0.05
+    snapshots = ()
+
+    def snap(self, result, operands, first=0):
+        """Remember which Var objects were passed to the constructor that made ``result`` (positions from ``first`` on)."""
+        self.snapshots.append((result, tuple(operands), first))
+
     def program(self):
         rng, op = self.rng, self.op
         nargs = rng.randint(1, 3)
         self.args = [argument(Tensor(F32, (2,))) for _ in range(nargs)]
         self.cond = argument(Tensor(np.bool_, ()))
         self.leak = []
+        self.snapshots = []
         # one initializer-backed weight that any scope may read (bodies of sibling control-flow nodes share it)
         self.shared_init = initializer(np.array([rng.randint(1, 5), rng.randint(1, 5)], F32)) if rng.random() < 0.6 else None
         pool = list(self.args)
@@ -362,7 +370,14 @@ class Gen:
             hi = None if rng.random() < 0.5 else op.reduce_max(rng.choice(pool), keepdims=0)
             return op.clip(a, lo, hi)
         if k < 0.45 and "var" in self.allow:
-            self.count("Sum"); return op.sum([rng.choice(pool) for _ in range(rng.randint(1, 4))])
+            self.count("Sum")
+            parts = [rng.choice(pool) for _ in range(rng.randint(1, 4))]
+            r = op.sum(parts)
+            self.snap(r, parts)
+            if rng.random() < 0.5:      # the caller goes on using ITS list: the node was given the values it held at the call
+                parts.append(rng.choice(pool)) if rng.random() < 0.7 else parts.clear()
+                self.count("Sum(list mutated after the call)")
+            return r
         if k < 0.49:
             self.count("Initializer"); return initializer(np.array([rng.randint(1, 5), rng.randint(1, 5)], F32))
         if k < 0.53:
@@ -397,9 +412,11 @@ class Gen:
             return rng.choice(list(r))
         if k < 0.90 and depth < self.max_depth and "loop" in self.allow:
             self.count("Loop")
-            nstate = rng.randint(1, 2)
+            nstate = rng.randint(1, 2) if rng.random() > self.wide_p else rng.choice([9, 10, 12])   # wide: >= 11 body arguments
             nscan = rng.randint(0, 1)
             init = [self._same2(rng.choice(pool)) for _ in range(nstate)]
+            if nstate > 2:
+                self.count("Loop(wide)")
 
             def body(i, c, *st):
                 loc = list(pool) + list(st)
@@ -412,6 +429,9 @@ class Gen:
                 return [c] + [self._same2(rng.choice(loc)) for _ in range(nstate)] + [self._same2(rng.choice(loc)) for _ in range(nscan)]
 
             r = op.loop(op.const(np.array(rng.randint(1, 3), np.int64)), v_initial=init, body=body)
+            self.snap(r[0], [None, None] + init, first=2)
+            if rng.random() < 0.3:
+                init.append(rng.choice(pool))
             j = rng.randrange(len(r))
             if j >= nstate:  # scan output: [trip, 2] -> reduce to [2]
                 return op.reduce_sum(r[j], op.const(np.array([0], np.int64)), keepdims=0)
@@ -643,6 +663,19 @@ class Case:
     def __init__(self, ins, outs, drop=False, meta=None):
         self.ins, self.outs, self.drop, self.meta = ins, outs, drop, meta or {}
         self.refl = self.impl = self.model_proto = self.exc = self.model = self.coq = self.pre = None
+
+
+def snapshot_problems(snapshots):
+    """The node behind each recorded result must hold exactly the operands it was called with (same objects, same order)."""
+    out = []
+    for result, operands, first in snapshots:
+        have = list(result._op.inputs.get_vars().values()) if hasattr(result._op.inputs, "get_vars") else []
+        have = [v for v in result._op.inputs][first:] if first else have
+        want = list(operands[first:])
+        if len(have) != len(want) or any(h is not w for h, w in zip(have, want)):
+            out.append(f"{result._op.op_type.identifier} was called with {len(want)} operand(s) but its node now holds {len(have)}"
+                       + ("" if len(have) != len(want) else " other") + " value(s): a list passed to a constructor is read at the call")
+    return out
 
 
 def run_impl(case: Case):
